@@ -12,6 +12,9 @@
 (* (the snapshots explored are GenTables; the Basic users are uPlain, uColon and uBlank - the    *)
 (* user whose credentials have white space at their ends -, the presented classes include the   *)
 (* ones that differ from configured credentials by leading / trailing white space only)         *)
+(* (3b) file: basicAuth in FILE mode, the user file EDITED between presentations, one to three   *)
+(* edits in a row before the source settles (or before the request is presented to the not yet   *)
+(* settled source): same tables and requests as (3); temporal theorems + behaviours;             *)
 (* (4) reconf: hot updates (Reconfigure: new spec, new generation built with Inherit) between    *)
 (* presentations: JWT secret rotated / algorithm changed / cookie carrier switched, access keys *)
 (* removed / re-keyed / added, Basic users changed (FILE and ETCD), methods switched on and off, *)
@@ -19,9 +22,10 @@
 EXTENDS Validator, Json
 
 CONSTANTS Full,      \* BOOLEAN: the wide sets (thorough tier)
-          Mode       \* "enum" | "clock" | "etcd" | "reconf"
+          Mode       \* "enum" | "clock" | "etcd" | "file" | "reconf"
 
-VARIABLE out
+VARIABLES out,       \* JSON description of the step just taken
+          lastA      \* the kind of that step (shapes the generated behaviours; not part of the view)
 
 JOff == [on |-> FALSE, alg |-> "HS256", cookie |-> FALSE]
 SOff == [on |-> FALSE, ttl |-> FALSE, excl |-> FALSE]
@@ -50,6 +54,7 @@ ComboCfgs ==
 EnumCfgs  == HdrCfgs \cup JwtCfgs \cup SigCfgs \cup BasicCfgs \cup ComboCfgs
 ClockCfgs == {C("off", J("HS256", k), SOff, "off") : k \in BOOLEAN}
 EtcdCfgs  == {C("off", JOff, SOff, "etcd"), C("both", JOff, SOff, "etcd")}
+FileCfgs  == {C("off", JOff, SOff, "file"), C("both", JOff, SOff, "file")}
 ReconfCfgs == {C("off", J("HS256", FALSE), SOff, "off"), C("off", J("HS256", TRUE), SOff, "off"),
                C("off", JOff, S(FALSE, FALSE), "off"), C("off", JOff, S(TRUE, TRUE), "off"),
                C("off", JOff, SOff, "file"), C("off", JOff, SOff, "etcd"),
@@ -208,13 +213,13 @@ GenRecfgs(c, e) ==
 GenTables == {t \in UserTables : \/ t["uBlank"] = "v1"
                                  \/ t["uPlain"] = "v1" /\ t["uColon"] = "v1"
                                  \/ \A u \in KnownUsers : t[u] = "gone"}
-TablesOk == ns' = ns + 1 => users' \in GenTables
+TablesOk == (ns' = ns + 1 \/ ne' = ne + 1) => users' \in GenTables
 
-GenCfgs == IF Mode = "clock" THEN ClockCfgs ELSE IF Mode = "etcd" THEN EtcdCfgs
+GenCfgs == IF Mode = "clock" THEN ClockCfgs ELSE IF Mode = "etcd" THEN EtcdCfgs ELSE IF Mode = "file" THEN FileCfgs
            ELSE IF Mode = "reconf" THEN ReconfCfgs ELSE EnumCfgs
 GenReqs(c) ==
     IF Mode = "clock" THEN ClockReqs(c)
-    ELSE IF Mode = "etcd" THEN EtcdReqs(c)
+    ELSE IF Mode \in {"etcd", "file"} THEN EtcdReqs(c)
     ELSE IF Mode = "reconf" THEN ReconfReqs(c)
     ELSE IF c \in ComboCfgs THEN ComboReqs(c)
     ELSE IF c.hdr # "off" THEN HdrReqs(c)
@@ -223,25 +228,29 @@ GenReqs(c) ==
     ELSE BasicReqs(c)
 
 ----------------------------------------------------------------------------------------------
+Act == IF n' = n + 1 THEN "present" ELSE IF ns' = ns + 1 THEN "sync" ELSE IF nr' = nr + 1 THEN "reconf"
+       ELSE IF ne' = ne + 1 THEN "edit" ELSE IF stale' # stale THEN "settle" ELSE "adv"
 Describe ==   \* of the step just taken (primed variables)
     IF n' = n + 1
-    THEN [a |-> "present", cfg |-> cfg', mat |-> mat', now |-> now', users |-> users', req |-> req',
+    THEN [a |-> "present", cfg |-> cfg', mat |-> mat', now |-> now', users |-> users', settled |-> (stale' = {}), req |-> req',
           v |-> [m \in Methods |-> V(cfg', req', at', m)], exp |-> Verdict(cfg', req', at'),
           impl |-> [pinned |-> ImplRes(cfg', req', at', FALSE), repaired |-> ImplRes(cfg', req', at', TRUE)]]
     ELSE IF ns' = ns + 1 THEN [a |-> "sync", users |-> users']
     ELSE IF nr' = nr + 1 THEN [a |-> "reconf", cfg |-> cfg', mat |-> mat', users |-> users']
+    ELSE IF ne' = ne + 1 THEN [a |-> "edit", users |-> users']
+    ELSE IF stale' # stale THEN [a |-> "settle"]
     ELSE [a |-> "adv", d |-> now' - now, now |-> now']
 
-GInit == Init /\ out = ToJson([a |-> "init", cfg |-> cfg, mat |-> mat, now |-> now, users |-> users])
-GNext == Next /\ TablesOk /\ out' = ToJson(Describe)
-GSpec == GInit /\ [][GNext]_<<vars, out>>
+GInit == Init /\ out = ToJson([a |-> "init", cfg |-> cfg, mat |-> mat, now |-> now, users |-> users]) /\ lastA = "init"
+GNext == Next /\ TablesOk /\ out' = ToJson(Describe) /\ lastA' = Act
+GSpec == GInit /\ [][GNext]_<<vars, out, lastA>>
 (* clock behaviours for replay: the request presented first is presented again and again while   *)
 (* the clock advances (a random walk over all requests would hardly ever present a token twice)  *)
 (* ... and that first request is one the contract accepts in SOME environment (at some time / for *)
 (* some user table), so that the behaviour shows acceptance turning into rejection and back      *)
 (* (reconf: in the first generation or in one that a single hot update leads to)                 *)
 Interesting(c, r) ==
-    \/ \E t \in Now0..MaxNow, us \in (IF c.basic = "etcd" THEN UserTables ELSE {Users0}) :
+    \/ \E t \in Now0..MaxNow, us \in (IF c.basic = "etcd" \/ Mode = "file" THEN UserTables ELSE {Users0}) :
           Verdict(c, r, Env(c, t, us, Mat0)) = "accept"
     \/ \E x \in GenRecfgs(c, Env(c, Now0, Users0, Mat0)) : Verdict(x.cfg, r, Env(x.cfg, Now0, x.users, x.mat)) = "accept"
 (* reconf behaviours: [switch to a request, hot update(s), the same request again] three times; the *)
@@ -255,6 +264,13 @@ RcShape ==
           THEN IF n = 2 THEN Interesting(cfg, req') ELSE Verdict(cfg, req', Cur) = "accept"
           ELSE req' = req /\ nr >= (n + 1) \div 2)
     /\ (nr' = nr + 1 => n % 2 = 1 /\ nr < (IF n = 3 THEN 3 ELSE (n + 1) \div 2))
+(* file behaviours: the request presented first is presented again and again; in between the user *)
+(* file is edited, one to three times in a row, then the source settles and the request is        *)
+(* presented; sometimes it is also presented to the source that has not settled yet.              *)
+(* [P] E+ [P] S P E+ [P] S P ...                                                                   *)
+FShape ==
+    /\ (n' = n + 1 => IF n = 0 THEN Interesting(cfg, req') ELSE req' = req /\ lastA # "present")
+    /\ (ne' = ne + 1 => n > 0 /\ Cardinality(stale) < 3 /\ lastA # "settle")
 (* the replay does not use the observation a behaviour carries: one representative per verdict   *)
 (* (so that the walk chooses uniformly among requests, not among (request, observation) pairs)  *)
 Canon == n' = n + 1 => res'.acc \/ (res'.status = 401 /\ res'.intact)
@@ -262,15 +278,16 @@ CNext == /\ Next
          /\ TablesOk
          /\ Canon                                                                     \* (before the costly description)
          /\ IF Mode = "reconf" THEN RcShape
+            ELSE IF Mode = "file" THEN FShape
             ELSE (n' = n + 1 => IF n > 0 THEN req' = req ELSE Interesting(cfg, req'))
-         /\ out' = ToJson(Describe)
-CSpec == GInit /\ [][CNext]_<<vars, out>>
+         /\ out' = ToJson(Describe) /\ lastA' = Act
+CSpec == GInit /\ [][CNext]_<<vars, out, lastA>>
 (* the same behaviours without the cost of describing them (model checking only) *)
-MSpec == Init /\ out = "" /\ [][Next /\ TablesOk /\ UNCHANGED out]_<<vars, out>>
+MSpec == Init /\ out = "" /\ lastA = "" /\ [][Next /\ TablesOk /\ UNCHANGED <<out, lastA>>]_<<vars, out, lastA>>
 (* ... and with the first request presented again (reconf mode: the theorems about hot updates are *)
 (* about one request before and after; every (configuration, material, table, request) is still  *)
 (* reached, but not every PAIR of requests)                                                      *)
-RSpec == Init /\ out = "" /\ [][Next /\ TablesOk /\ UNCHANGED out /\ (n' = n + 1 /\ n > 0 => req' = req)]_<<vars, out>>
+RSpec == Init /\ out = "" /\ lastA = "" /\ [][Next /\ TablesOk /\ UNCHANGED <<out, lastA>> /\ (n' = n + 1 /\ n > 0 => req' = req)]_<<vars, out, lastA>>
 
 (* every single mutation of a not yet mutated request (carrying one token at most) that must be *)
 (* accepted is itself one of the enumerated vectors, i.e. it is executed on the real code from  *)
